@@ -172,6 +172,9 @@ def core_scenarios():
     S.append(("big_restart_append", "strict", "A:t:15728640 O A:t:100 R:t R:t O R:t A:t:5 R:t"))
     S.append(("small_big_small", "strict", "A:t:100 A:t:12000000 A:t:200 A:t:300 R:t O R:t R:t R:t"))
     S.append(("big_batch_restart", "strict", "B:t:100,12000000,300 A:u:7 B:t:5 O R:t R:t R:t R:t R:u"))
+    # a rolled-back entry above 10 MiB leaves payload bytes (no header) in the units behind its zeroed header: recovery must step over them
+    S.append(("rolled_back_big_entry_then_other_topic", "strict", "A:a:10 F:FSYNC:s3 EB:t:15728640 A:b:20 O R:a R:b"))
+    S.append(("rolled_back_big_entry_then_more", "strict", "A:a:10 A:t:5 F:FSYNC:s3 EB:t:15728640 A:b:20 A:t:7 O R:a R:b R:t R:t"))
     S.append(("stateless_alo_cursor", "alo3", "A:t:300 A:t:300 A:t:300 A:t:300 A:t:300 A:t:300 R:t S:t:1048576:1:0 P:t R:t"))
     # clean/dirty markers across immediate and delayed clean restarts (C17)
     S.append(("clean_immediate_reopen", "strict", "A:t:10 OI P:t C:t OI P:t D:t OI P:t"))
@@ -196,6 +199,10 @@ def family_core(prop, fail, unit_res, repo, verif, build):
 
 for _p in ("C01", "C02", "C03", "C04", "C07", "C09", "C10", "C15", "C16", "C06", "C17"):
     FAMILIES[_p] = family_core
+
+
+def family_c06_clock(prop, fail, unit_res, repo, verif, build):
+    return _core_replay("c06_clock_family", lambda scratch: [scratch], repo, verif, build)
 
 
 def family_c08(prop, fail, unit_res, repo, verif, build):
@@ -269,3 +276,16 @@ def family_c24(prop, fail, unit_res, repo, verif, build, timeout=900):
 
 
 FAMILIES["C24"] = family_c24
+
+
+def family_c06(prop, fail, unit_res, repo, verif, build):
+    """C06: histories with in-process restarts (core scenarios), then runs as separate processes with a pinned wall clock."""
+    r = family_core(prop, fail, unit_res, repo, verif, build)
+    if r.get("counterexample"):
+        return r
+    r2 = family_c06_clock(prop, fail, unit_res, repo, verif, build)
+    r2["counterexample_search"] = (r.get("counterexample_search") or "") + "; " + (r2.get("counterexample_search") or "")
+    return r2
+
+
+FAMILIES["C06"] = family_c06
